@@ -417,4 +417,130 @@ theorem C02_dpda_eq_npda_decided (M : DPDA σ α γ) (hdet : ¬ M.TwoMoves) (m :
       rw [← e1, e2]; exact h₂
     exact SN.2.1.mpr this
 
+/-! ## End to end, for definitions accepted by the constructors -/
+
+/-- The NPDA built from a well-formed DPDA table is well formed (accepted by the NPDA
+constructor). -/
+theorem C02_lift_valid (M : DPDA σ α γ) (wf : M.WellFormed) : M.lift.validate = .ok () := by
+  rw [C02_npda_validate_iff]
+  refine ⟨?_, ?_, wf.initOk, wf.initStackOk, wf.finalsOk, wf.modeOk⟩
+  · intro kv hkv e he a ha
+    simp only [DPDA.lift, List.mem_map] at hkv
+    obtain ⟨kv', hkv', rfl⟩ := hkv
+    simp only [List.mem_map] at he
+    obtain ⟨e', he', rfl⟩ := he
+    exact wf.inputOk kv' hkv' e' he' a ha
+  · intro kv hkv e he X hX
+    simp only [DPDA.lift, List.mem_map] at hkv
+    obtain ⟨kv', hkv', rfl⟩ := hkv
+    simp only [List.mem_map] at he
+    obtain ⟨e', he', rfl⟩ := he
+    refine wf.stackOk kv' hkv' e' he' X ?_
+    simpa [akeys, List.map_map] using hX
+
+/-- For every NPDA definition the constructor accepts: the mode is one of the three, and
+for all words acceptance is reachability of an accepting configuration. -/
+theorem C02_npda_valid (M : NPDA σ α γ) (hv : M.validate = .ok ()) :
+    ∃ m : AccMode, M.mode = m.literal ∧ ∀ w : List α,
+      ((∃ fuel, acceptsInput (M.readStepwise fuel w) = some (.ok true)) ↔
+        ∃ k c, StepN M.moves k (M.start w) c ∧ Accepting m M.finals c) := by
+  obtain ⟨m, hm⟩ := ((C02_npda_validate_iff M).mp hv).modeOk
+  refine ⟨m, hm, fun w => ?_⟩
+  rw [← C02_npda_accept_iff M m hm w]
+  constructor
+  · rintro ⟨f, h⟩; exact ⟨f, (C02_npda_accepts_input M f w).1.mp h⟩
+  · rintro ⟨f, h⟩; exact ⟨f, (C02_npda_accepts_input M f w).1.mpr h⟩
+
+/-- For every DPDA definition the constructor accepts: the NPDA with the same table is
+accepted by its constructor too, and on every word the two machines give the same verdict
+(both accept, both reject, or neither run ends). -/
+theorem C02_dpda_valid_eq_npda (M : DPDA σ α γ) (hk : M.KeysUnique) (hv : M.validate = .ok ())
+    (pick : Config σ α γ → Bool) (w : List α) :
+    M.lift.validate = .ok () ∧
+    ((∃ fuel, (M.readStepwise pick fuel w).2 = .returned) ↔
+      (∃ fuel, (M.lift.readStepwise fuel w).2 = .returned)) ∧
+    ((∃ fuel, (M.readStepwise pick fuel w).2 = .raised (.lib .rejectionException)) ↔
+      (∃ fuel, (M.lift.readStepwise fuel w).2 = .raised (.lib .rejectionException))) := by
+  obtain ⟨wf, hdet⟩ := (C02_dpda_validate_iff M hk).mp hv
+  obtain ⟨m, hm⟩ := wf.modeOk
+  exact ⟨C02_lift_valid M wf, C02_dpda_eq_npda M hdet m hm pick w⟩
+
+/-! ## Non-vacuity: concrete machines (states, symbols, stack symbols are naturals) -/
+
+section Examples
+
+/-- `q0 —a,Z→ {(q0, AZ), (q1, Z)}`, `q0 —λ,A→ (q1, λ)`, `q1 —λ,Z→ (q1, λ)`, accepting by empty
+stack (`Z = 0`, `A = 1`). -/
+def exN : NPDA Nat Nat Nat :=
+  { states := [0, 1], inputSyms := [0], stackSyms := [0, 1],
+    trans := [(0, [(some 0, [(0, [(0, [1, 0]), (1, [0])])]), (none, [(1, [(1, [])])])]),
+              (1, [(none, [(0, [(1, [])])])])],
+    init := 0, initStack := 0, finals := [], mode := "empty_stack" }
+
+example : exN.validate = .ok () := by rfl
+example : exN.mode = AccMode.emptyStack.literal := by decide
+/-- accepted at level 2 (two configurations per level: genuinely nondeterministic) -/
+example : exN.readStepwise 5 [0] =
+    ([[⟨0, [0], [0]⟩], [⟨0, [], [0, 1]⟩, ⟨1, [], [0]⟩], [⟨1, [], [0]⟩, ⟨1, [], []⟩]], .returned) := by decide
+/-- rejected: level 4 is empty -/
+example : (exN.readStepwise 9 [0, 0]).2 = .raised (.lib .rejectionException) ∧
+    (exN.readStepwise 9 [0, 0]).1.length = 5 := by decide
+/-- the hypothesis of `C02_npda_decides` is met (all runs on `aa` die out) -/
+example : ∃ k, ∀ c, ¬ StepN exN.moves k (exN.start [0, 0]) c := by
+  obtain ⟨_, _, _, _, he, _⟩ := C02_npda_stepwise exN .emptyStack (by decide) 9 [0, 0]
+  have := he.mp (by decide)
+  exact ⟨_, fun c hc => this.2 ⟨c, hc⟩⟩
+
+/-- a λ-cycle `q0 —λ,Z→ (q0, ZZ)`: the reader never decides; the model says so -/
+def exLoop : NPDA Nat Nat Nat :=
+  { states := [0], inputSyms := [0], stackSyms := [0],
+    trans := [(0, [(none, [(0, [(0, [0, 0])])])])],
+    init := 0, initStack := 0, finals := [], mode := "final_state" }
+
+example : exLoop.validate = .ok () ∧ (exLoop.readStepwise 20 []).2 = .outOfFuel := ⟨by rfl, by decide⟩
+
+/-- The docstring DPDA for aⁿbⁿ (`a = 0`, `b = 1`; stack `'0' = 0`, `'1' = 1`). -/
+def exD : DPDA Nat Nat Nat :=
+  { states := [0, 1, 2, 3], inputSyms := [0, 1], stackSyms := [0, 1],
+    trans := [(0, [(some 0, [(0, (1, [1, 0]))])]),
+              (1, [(some 0, [(1, (1, [1, 1]))]), (some 1, [(1, (2, []))])]),
+              (2, [(some 1, [(1, (2, []))]), (none, [(0, (3, [0]))])])],
+    init := 0, initStack := 0, finals := [3], mode := "final_state" }
+
+theorem exD_keys : exD.KeysUnique := by unfold Table.KeysUnique; decide
+example : exD.validate = .ok () := by rfl
+example : ¬ exD.TwoMoves := ((C02_dpda_validate_iff exD exD_keys).mp (by rfl)).2
+example : (exD.readStepwise (fun _ => true) 10 [0, 0, 1, 1]).2 = .returned ∧
+    (exD.lift.readStepwise 10 [0, 0, 1, 1]).2 = .returned ∧
+    (exD.readStepwise (fun _ => true) 10 [0, 1, 1]).2 = .raised (.lib .rejectionException) ∧
+    (exD.lift.readStepwise 10 [0, 1, 1]).2 = .raised (.lib .rejectionException) := by decide
+
+/-- F7: `q0` final, only row `q0 —λ,Z→ (q1, Z)`.  The start configuration accepts `""`; the
+DPDA reader returns immediately, like the NPDA (before the fix it moved to `q1` and rejected). -/
+def exF7 : DPDA Nat Nat Nat :=
+  { states := [0, 1], inputSyms := [0], stackSyms := [0],
+    trans := [(0, [(none, [(0, (1, [0]))])])],
+    init := 0, initStack := 0, finals := [0], mode := "final_state" }
+
+example : exF7.validate = .ok () ∧
+    exF7.readStepwise (fun _ => true) 5 [] = ([⟨0, [], [0]⟩], .returned) ∧
+    exF7.lift.readStepwise 5 [] = ([[⟨0, [], [0]⟩]], .returned) := ⟨by rfl, by decide, by decide⟩
+
+/-- m05's killer: a one-symbol sibling next to a λ-move on the same stack top. -/
+def exTwo : DPDA Nat Nat Nat :=
+  { states := [0, 1], inputSyms := [0], stackSyms := [0],
+    trans := [(0, [(some 0, [(0, (1, [0]))]), (none, [(0, (0, [0]))])])],
+    init := 0, initStack := 0, finals := [1], mode := "final_state" }
+
+example : exTwo.validate = .error (.lib .nondeterminismError) ∧ exTwo.KeysUnique :=
+  ⟨by rfl, by unfold Table.KeysUnique; decide⟩
+example : exTwo.TwoMoves := ⟨0, 0, 0, by decide, by decide⟩
+/-- there the popped transition matters: the two set orders give different runs -/
+example : exTwo.readStepwise (fun _ => true) 3 [0] ≠ exTwo.readStepwise (fun _ => false) 3 [0] := by decide
+
+/-- m03's killer: mode "both", empty stack in a non-final state is accepting. -/
+example : Table.hasAccepted ({ exN with mode := "both" } : NPDA Nat Nat Nat) ⟨1, [], []⟩ = true := by decide
+
+end Examples
+
 end AV.Props.C02
